@@ -1,6 +1,6 @@
 (* C05 — per-block 30% limit on voting-power change for safe SetPower. *)
 From stdpp Require Import gmap.
-Require Import Model.Base Model.Validate Model.State Model.Staking Model.Slashing Model.Poa proofs.L1Effects.
+Require Import Model.Base Model.Validate Model.State Model.Staking Model.Slashing Model.Poa Model.App proofs.L1Effects proofs.InvHistory proofs.InvTotal.
 
 (* a safe SetPower above height 1 succeeds only if the running sum (its own change included) is below
    30% of the cached total *)
@@ -38,3 +38,23 @@ Theorem C05_unsafe_bypass : forall c val power c1 c2,
   set_poa_power c1 val (cast_i64 power) = MOk c2 ->
   msg_set_power c admin_id val power true = update_bonded_pool c2.
 Proof. exact msg_set_power_unsafe_bypass. Qed.
+
+(* what the cached total is: in every reachable running state x/staking's LastTotalPower equals the sum of the last
+   validator powers (the voting power of the set CometBFT holds, C02) *)
+Theorem C05_last_total_is_the_sum_of_the_last_powers : forall g bs,
+  wf_genesis g ->
+  let w := run_world (init_world g) bs in
+  w_halted w = None -> last_total (stk (w_chain w)) = tsum (last_pow (stk (w_chain w))).
+Proof. exact reachable_TL. Qed.
+
+(* ... and throughout every block above height 1, whatever transactions have run so far, the total PoA tests against is
+   that sum as the previous block left it: the total voting power the validator set had at the end of the previous block *)
+Theorem C05_limit_base_is_previous_block_total : forall g bs b c1 txs,
+  wf_genesis g ->
+  let w := run_world (init_world g) bs in
+  w_halted w = None -> 0 < height (w_chain w) ->
+  begin_block (with_clock (w_chain w) (height (w_chain w) + 1) (now (w_chain w) + b_dt b))
+              (match c_prev (w_comet w) with Some vs => sorted_votes vs | None => [] end) (b_absent b) = inl c1 ->
+  cached_power (poa (fst (deliver_txs c1 txs))) = tsum (last_pow (stk (w_chain w))) /\
+  last_pow (stk (fst (deliver_txs c1 txs))) = last_pow (stk (w_chain w)).
+Proof. exact cached_total_is_previous_set_total. Qed.
